@@ -172,6 +172,13 @@ def suppressedCode (c : Int) : Bool := c == 1 || c == 2 || c == 11
 def privilegedCode (c : List Int) : Bool := (c.headD 0 == 0 && (c.getD 1 0 == 5 || c.getD 1 0 == 6 || c.getD 1 0 == 7)) || c.headD 0 == 9
 
 def judgeC05 (o : Obs) : Verdict :=
+  -- a scope fails as itself (the body's exception) or as Concurrent - never as one of the library's own signals
+  (let leaked (c : Int) : Bool := c == 10 || c == 11 || c == 14 || c == 15 || c == 99 || c == -1
+   fail (leaked (o.crash.headD 0) ||
+         (o.crash.headD 0 == 3 && (decodeCodes o.crash.length (o.crash.drop 1)).any (fun c => leaked (c.headD 0))))
+     s!"run() ended with an internal signal/error that escaped from a scope: {o.crash}" ++
+   fail (o.crash.headD 0 == 3 && (decodeCodes o.crash.length (o.crash.drop 1)).any (fun c => suppressedCode (c.headD 0)))
+     s!"run() ended with a Concurrent that contains a cancellation/closure: {o.crash}") ++
   (idx o).flatMap (fun p =>
     let e := p.1
     if e.tag == "sexit" && arg e 2 == 1 then
@@ -381,7 +388,12 @@ def judgeC10 (o : Obs) : Verdict :=
     fail dup s!"queue {q}: an item was received twice: {received}" ++
     fail order s!"queue {q}: items received {received} are not a prefix of the items put {accepted}" ++
     fail (o.crash == [] && (received.length : Int) + remaining != accepted.length)
-      s!"queue {q}: {accepted.length} items accepted, {received.length} received, {remaining} still buffered")
+      s!"queue {q}: {accepted.length} items accepted, {received.length} received, {remaining} still buffered" ++
+    -- no item stays behind while a receiver keeps waiting for it: an unfinished activity whose last event is its
+    -- request for an item of this queue, at the end of a run that came to rest normally
+    (let waiting := o.unfinished.filter (fun l => ((ofLabel o l).getLast?).any (fun p => p.1.tag == "getreq" && arg p.1 0 == q))
+     fail (o.crash == [] && remaining > 0 && !waiting.isEmpty)
+       s!"queue {q}: {remaining} accepted item(s) are still buffered at the end although activity {waiting} is waiting to receive"))
 
 /-! ### C11 - Channel -/
 
